@@ -296,6 +296,16 @@ func runC04(c c04Case) (string, vt.StatusTriple) {
 		return vt.Hang("completion of the call"), vt.StatusTriple{}
 	}
 	got := vt.TripleOf(cmd.Status())
+	if c.Cause != "conn-closed" {
+		// what a completed call hands out belongs to the caller: more traffic on the
+		// session (another failing call, a successful one, a push) must not change it
+		l.A.Call(callRoute, &LibArg{Rid: "after-err", Act: "err", Code: 31337, Msg: "later failure", Cause: "later cause", HasC: true}, new(LibRes), erpc.WithBodyCodec('j'))
+		l.A.Call(callRoute, &LibArg{Rid: "after-ok", Act: "ret", Val: "later"}, new(LibRes), erpc.WithBodyCodec('j'))
+		l.A.Call(callRoute+"/nope", &LibArg{}, new(LibRes), erpc.WithBodyCodec('j'))
+		if again := vt.TripleOf(cmd.Status()); again != got {
+			return fmt.Sprintf("the status of the completed call changed from %+v to %+v after later calls on the session", got, again), got
+		}
+	}
 	e := c.expected()
 	switch {
 	case e.ok:
@@ -331,6 +341,9 @@ func runC04(c c04Case) (string, vt.StatusTriple) {
 	switch {
 	case c.Cause == "handler-ok", c.Cause == "handler-err", c.Cause == "panic-s", c.Cause == "panic-e", c.Cause == "conn-closed", c.Cause == "result-mismatch", strings.HasPrefix(c.Cause, "rveto-"):
 		wantCalls = 1
+	}
+	if c.Cause != "conn-closed" {
+		wantCalls += 2 // the two follow-up calls that reach the handler
 	}
 	if n := s.TotalCalls(); n != wantCalls {
 		return fmt.Sprintf("handler ran %d times, want %d", n, wantCalls), got
